@@ -727,12 +727,22 @@ func (e *Engine) restrictedWriters(p string) []*ssa.Function {
 		touch := false
 		for _, b := range fn.Blocks {
 			for _, in := range b.Instrs {
-				st, ok := in.(*ssa.Store)
-				if !ok {
-					continue
+				var fa *ssa.FieldAddr
+				switch x := in.(type) {
+				case *ssa.Store:
+					fa, _ = x.Addr.(*ssa.FieldAddr)
+				case *ssa.MapUpdate:
+					if u, ok := x.Map.(*ssa.UnOp); ok {
+						fa, _ = u.X.(*ssa.FieldAddr)
+					}
+				case *ssa.Call:
+					if b, ok := x.Call.Value.(*ssa.Builtin); ok && b.Name() == "delete" && len(x.Call.Args) > 0 {
+						if u, ok := x.Call.Args[0].(*ssa.UnOp); ok {
+							fa, _ = u.X.(*ssa.FieldAddr)
+						}
+					}
 				}
-				fa, ok := st.Addr.(*ssa.FieldAddr)
-				if !ok {
+				if fa == nil {
 					continue
 				}
 				pt, ok := fa.X.Type().Underlying().(*types.Pointer)
